@@ -1409,8 +1409,9 @@ theorem generated_abcOk : AbcOk Gen.rnaAbc ∧ AbcOk Gen.dnaAbc ∧ AbcOk Gen.am
 /-- FOR EVERY HISTORY: whatever chain (any length, any order, mode switches in between) of successful
     `esl_msa_ColumnSubset` (hence MinimGaps / NoGaps / their text twins, `compaction_entry_points`),
     `esl_msa_RemoveBrokenBasepairs`, `esl_msa_Set*` / `esl_msa_Format*` (successful or refused), `esl_msa_Digitize`,
-    `esl_msa_Textize`, `esl_msa_ReverseComplement`, `esl_msa_FlushLeftInserts` and `esl_msa_MarkFragments_old` calls is applied
-    to a well-formed alignment, the alignment reached is
+    `esl_msa_Textize`, `esl_msa_ReverseComplement`, `esl_msa_FlushLeftInserts`, `esl_msa_MarkFragments_old` and
+    `esl_msa_SequenceSubset` calls is applied to a well-formed alignment (with distinct GS tags and distinct GR tags: what the
+    keyhash of `esl_msa_AddGS` / `AppendGR` guarantees; the invariant carries it along), the alignment reached is
     well formed, a digital one carries an alphabet and only valid codes of it, a text one carries no alphabet. -/
 theorem history_wellformed (m m' : Msa) (h : Steps m m') (inv : Inv m) :
     m'.WF ∧ (m'.isDigital = true → ∃ a, AbcOk a ∧ m'.abc = some a ∧ m'.codesOk a) ∧ (m'.isDigital = false → m'.abc = none) :=
@@ -1419,7 +1420,7 @@ theorem history_wellformed (m m' : Msa) (h : Steps m m') (inv : Inv m) :
 
 /-- a text alignment built by the library satisfies the invariant -/
 theorem exRfText_inv : Inv exRfText := by
-  refine ⟨?_, fun h => absurd h (by decide), fun _ => rfl⟩
+  refine ⟨?_, fun h => absurd h (by decide), fun _ => rfl, by decide, by decide⟩
   constructor <;> simp [exRfText, Msa.create, strOk, optOk, Msa.rowTerm, Msa.isDigital]
 
 /-- a history of four transformations with two mode switches: digitize, drop column 1, reverse-complement, textize -/
